@@ -196,6 +196,27 @@ func genAPI(t *rapid.T) APICase {
 		base += len(p.Frags) + 10
 		c.Pages = append(c.Pages, p)
 	}
+	// a page that repeats the geometry of the page before it with other text (tabular figures, a filled-in form
+	// template): anything remembered from one page by its geometry alone shows on the next
+	if len(c.Pages) >= 1 && rapid.IntRange(0, 3).Draw(t, "geometricTwin") == 0 {
+		src := c.Pages[len(c.Pages)-1]
+		twin := src
+		twin.Frags = append([]frag.Frag{}, src.Frags...)
+		for i := range twin.Frags {
+			twin.Frags[i].T = strings.Map(func(r rune) rune {
+				switch {
+				case r >= 'a' && r < 'z', r >= 'A' && r < 'Z':
+					return r + 1
+				case r == 'z':
+					return 'a'
+				case r == 'Z':
+					return 'A'
+				}
+				return r
+			}, src.Frags[i].T)
+		}
+		c.Pages = append(c.Pages, twin)
+	}
 	return c
 }
 
@@ -210,6 +231,11 @@ func metaAPI(c APICase) vr.Meta {
 		}
 		for _, f := range p.Frags {
 			fmt.Fprintf(&fp, "%s@%g,%g;", f.T, f.X, f.Y)
+		}
+	}
+	for i := 1; i < len(c.Pages); i++ {
+		if len(c.Pages[i].Frags) == len(c.Pages[i-1].Frags) && len(c.Pages[i].Frags) > 0 && c.Pages[i].Frags[0].X == c.Pages[i-1].Frags[0].X && c.Pages[i].Frags[0].T != c.Pages[i-1].Frags[0].T {
+			labels = append(labels, "geometric-twin-page")
 		}
 	}
 	seen := map[string]bool{}
